@@ -1173,11 +1173,42 @@ def known_witness(ctx, objdir):
                        "full_view_child_lines": full, "tid_child_only_lines": alone})
 
 
+KF2_KEY = "fold-hidden-fork-depth"
+KF2_TEXT = ("default (folded) view with -D: when the ENTRY of fork() is hidden by the depth limit and is the first record after its "
+            "caller's ENTRY, the caller's look-ahead (fstack_skip) consumes it before the caller's display depth is updated, "
+            "fork_display_depth is one too small and the forked child's lines are printed one level shallower than with --no-merge "
+            "(main{a{fork}} -D 2: `} /* fork */`, b(), `} /* a */` of the child at indentation 1,1,0 instead of 2,2,1)")
+
+
+def known_witness_fold_fork(ctx, objdir):
+    from props import c18 as _c18
+    case = kf_case()
+    o = {"depth": 2, "F": [], "N": [], "t": None}
+    d = os.path.join(ctx.scratch, "kf2data")
+    write_dir(case, d)
+    outs = []
+    for fold in (False, True):
+        v = {"fold": fold, "sel": None, "fields": ["duration", "tid"], "column": None, "newline": False}
+        rc, out, err = datadir.uftrace(objdir, "replay", d, variant_args(v, case) + _c18.opts_args(o), timeout=30)
+        if rc != 0:
+            return
+        outs.append([(l[2], l[3]) for l in parse_output(out, v, case)[0] if l[1] == 1 and l[0] in "OLC"])
+    nm = [x for x in outs[0]]
+    df = []
+    for ind, name in outs[1]:
+        df.append((ind, name))
+    # a folded leaf is one line in the default view: compare the indentation of the first line of every call
+    still = [i for i, _ in nm][:1] != [i for i, _ in df][:1]
+    ctx.case(key=("known-finding", KF2_KEY), tags=["known-finding:" + KF2_KEY], sample={"no_merge": nm, "default": df})
+    ctx.known_finding(KF2_KEY, KF2_TEXT, still, {"known_finding": KF2_KEY, "no_merge": nm, "default": df})
+
+
 def run(ctx):
     common_meta(ctx)
     objdir = setup(ctx)
     rng = ctx.rng
     known_witness(ctx, objdir)
+    known_witness_fold_fork(ctx, objdir)
     cases = hand_cases()
     n = ctx.n(110, 1500)
     for k in range(n):
@@ -1232,6 +1263,9 @@ def replay(ctx, obj):
     objdir = setup(ctx)
     if obj.get("known_finding") == KF_KEY:
         known_witness(ctx, objdir)
+        return
+    if obj.get("known_finding") == KF2_KEY:
+        known_witness_fold_fork(ctx, objdir)
         return
     if obj.get("fold_case"):
         run_fold_opts(ctx, objdir, [(obj["fold_case"], obj["opts"])], "replay_f")
